@@ -233,7 +233,12 @@ def do_cells(case, rec, rng, ws, dims, inverse, copy):
     obj = (Curve if cls == "Curve" else Surface).create(ws, vertices=np.array(pts), cells=np.array(cells, dtype="uint32"), name="c")
     vvals = np.array([f_tag(i) for i in range(n)])
     cvals = np.array([f_tag(100 + j) for j in range(len(cells))])
-    obj.add_data({"vd": {"values": vvals.copy(), "association": "VERTEX"}, "cd": {"values": cvals.copy(), "association": "CELL"}})
+    entries = [("vd", {"values": vvals.copy(), "association": "VERTEX"}), ("cd", {"values": cvals.copy(), "association": "CELL"})]
+    if rng.random() < 0.5:
+        entries.append(("od", {"values": "a remark on the whole object", "association": "OBJECT"}))
+    rng.shuffle(entries)  # the children come in any order of association
+    rec.see("child-order:" + "".join(k[0] for k, _ in entries))
+    obj.add_data(dict(entries))
     box, style = rand_box(rng, pts, dims)
     exp, keep_cells = expect_cell_object(pts, cells, box, dims, inverse)
     got = obj.mask_by_extent(np.array(box), inverse=inverse)
